@@ -4,8 +4,9 @@ The model (Variant = "code") is the subdivision loop transcribed action by actio
 quadratics between lattice points every number in the loop is an exact dyadic float, so the real function must take *exactly*
 the model's behaviour: the same pairs visited in the same order at every level (recorded by wrapping bezier_bounding_box /
 boxes_intersect from outside), the same reports, the same "maximum iterations" failure.  A disagreement means the model no
-longer describes the code; the model-level properties (NoLoss, Once - violated by "code", satisfied by "correct") then say
-nothing about it and the G families of C11 / C12 are the only judge.
+longer describes the code; it is reported as MODEL-DRIFT, not as a violation (another correct subdivision strategy would
+differ too): the model-level properties (NoLoss, Once - violated by "code", satisfied by "correct") then say nothing about
+the code and the G families of C11 / C12 are the only judge.
 """
 import math
 
@@ -62,9 +63,20 @@ def compare(ck, case, E, maxits, merge):
     try:
         visits, res, raised = real_behaviour(inp, E, maxits, merge)
     except Exception as e:      # noqa
-        ck.disagree(key='bezier_intersections/raises-' + type(e).__name__, site='svgpathtools/bezier.py:bezier_intersections',
-                    what='straight lattice quadratics %s: %r' % (inp, e), case={'in': inp, 'E': E, 'maxits': maxits, 'merge': merge},
-                    expected='the behaviour of Subdiv.tla', observed=repr(e), driver='subdiv')
+        # the recorder rides on bezier_bounding_box / boxes_intersect being called once per visited pair: if the function no longer works that way the recorder may
+        # fail although the function itself is fine - only an exception of the *uninstrumented* call on this legal input is the library's
+        A, B, C, D = (complex(*inp[k]) for k in 'abcd')
+        try:
+            bz.bezier_intersections([A, (A + B) / 2, B], [C, (C + D) / 2, D], 4.0 ** -E * 2 ** (maxits - 1.5), tol=4.0 ** -E if merge == 'same' else 2.0 ** -60, tol_deC=4.0 ** -E)
+            plain_ok = True
+        except Exception as e2:      # noqa
+            plain_ok = 'maximum' in str(e2)
+        if plain_ok:
+            ck.drift('bezier_intersections/recorder-no-longer-fits', 'straight lattice quadratics %s: the visit recorder failed (%r) although the plain call works' % (inp, e))
+        else:
+            ck.disagree(key='bezier_intersections/raises-' + type(e).__name__, site='svgpathtools/bezier.py:bezier_intersections',
+                        what='straight lattice quadratics %s: %r' % (inp, e), case={'in': inp, 'E': E, 'maxits': maxits, 'merge': merge},
+                        expected='a list of parameter pairs', observed=repr(e), driver='subdiv')
         return False
     mv = [(v['k'], v['i'], v['j'], v['hit']) for v in case['visits']]
     rv = [(v['k'], v['i'], v['j'], v['hit']) for v in visits]
@@ -74,11 +86,9 @@ def compare(ck, case, E, maxits, merge):
         ck.trace_ok(1)
     if not ok:
         at = next((n for n, (x, y) in enumerate(zip(mv, rv)) if x != y), min(len(mv), len(rv)))
-        ck.disagree(key='bezier_intersections/behaviour-differs-from-Subdiv.tla', site='svgpathtools/bezier.py:bezier_intersections',
-                    what='straight lattice quadratics %s (tol_deC=4^-%d, maxits=%d, tol %s): the real loop departs from the model at visit %d: model %s, code %s; '
-                         'reports model %s / code %s; raised model %s / code %s' % (inp, E, maxits, merge, at, mv[at:at + 2], rv[at:at + 2], mf, res, case['raised'], raised),
-                    case={'in': inp, 'E': E, 'maxits': maxits, 'merge': merge}, expected={'visits': mv, 'found': mf, 'raised': case['raised']},
-                    observed={'visits': rv, 'found': res, 'raised': raised}, driver='subdiv')
+        ck.drift('bezier_intersections/behaviour-differs-from-Subdiv.tla',
+                 'straight lattice quadratics %s (tol_deC=4^-%d, maxits=%d, tol %s): the real loop departs from the model at visit %d: model %s, code %s; '
+                         'reports model %s / code %s; raised model %s / code %s' % (inp, E, maxits, merge, at, mv[at:at + 2], rv[at:at + 2], mf, res, case['raised'], raised))
     return ok
 
 
